@@ -13,6 +13,17 @@ import c10lib as L
 from quara.math import func_proj as qfunc_proj
 
 PROP = "C10"
+import c10_translate
+
+
+def translate(ctx):
+    """regenerate lean/QGen/C10.lean from the projected-gradient sources (the table theorems of QProps/C10 are about it)"""
+    try:
+        c10_translate.translate()
+    except c10_translate.Untranslatable as e:
+        return [f"translator (QGen/C10.lean): {e}"]
+    return []
+
 WORKERS = max(1, min(8, (os.cpu_count() or 2) // 2))
 
 
